@@ -10,10 +10,7 @@ From Tab Require Export Model.Registry.
 
 Local Open Scope N_scope.
 Definition DOT : N := 46.
-Definition s_csv : bytes := [99;115;118].
-Definition s_html : bytes := [104;116;109;108].
-Definition s_markdown : bytes := [109;97;114;107;100;111;119;110].
-Definition s_json : bytes := [106;115;111;110].
+(* s_csv, s_html, s_markdown, s_json and list_styles (ListStyles) live in Model/Registry.v *)
 Definition s_texttable : bytes := [116;101;120;116;116;97;98;108;101].
 
 (* ASCII part of unicode.ToLower *)
@@ -92,7 +89,3 @@ Section Auto.
   Definition render_auto (reg : registry) (style : bytes) : res (bytes * bool) :=
     bind (wrap reg style) render.
 End Auto.
-
-(* ListStyles: l := RegisteredDecorationNames(); l = append(l, "csv", "html", "json", "markdown"); sort.Strings(l) *)
-Definition list_styles (reg : registry) : list bytes :=
-  isort (names reg ++ [s_csv; s_html; s_json; s_markdown]).
